@@ -29,6 +29,73 @@ def run(ctx):
     meths = m.methods('UnicodeToLatexEncoder')
     rules(ctx, repo, m, meths)
     ctx.assume('rule callables and regular expressions supplied by the user are outside the rule')
+    # ---- R04x: the encoder classes leave the lists they are given as they are
+    ctx.rule('R04x', 'no function of the latexencode package changes a list or dictionary argument in place (P.insert / append / '
+                     'extend / update / sort / ... , `P += [...]`, `P[k] = v`, `del P[k]`) while the name still denotes the '
+                     'caller\'s object: a conversion-rule list handed to one encoder and then to a second one (or to a plain '
+                     'UnicodeToLatexEncoder) must still describe the rules the caller wrote, so that each encoder\'s output '
+                     'depends on its own configuration only (symex: the receiver after substitution of re-bindings)', 1)
+    MUT4_ = ('append', 'extend', 'insert', 'pop', 'remove', 'clear', 'sort', 'reverse', 'update', 'setdefault', 'popitem')
+    n_f4 = n_m4 = 0
+    for mn_, mod_ in sorted(repo.modules.items()):
+        if not mn_.startswith('pylatexenc.latexencode') or mn_.endswith('__main__'):
+            continue
+        for q_, fnode in sorted(mod_.functions.items()):
+            skip_ = 1 if '.' in q_ else 0
+            fparams = {a.arg for a in fnode.args.args[skip_:]} | {a.arg for a in fnode.args.kwonlyargs}
+            fparams -= {'self', 'cls'}
+            if not fparams:
+                continue
+            n_f4 += 1
+            has_ = any((isinstance(x_, ast.Call) and call_name(x_) in MUT4_ and isinstance(call_recv(x_), ast.Name))
+                       for x_ in iter_own(fnode))
+            if has_:
+                try:
+                    # (the receiver may be a local alias of a parameter: decided on the substituted receiver)
+                    wk = symex.Walker(is_sink=lambda c: call_name(c) in MUT4_ and isinstance(call_recv(c), ast.Name),
+                                      pure=('list', 'dict', 'tuple', 'set'))
+                    cases = wk.run(fnode)
+                except symex.TooManyPaths:
+                    cases = []
+                    ctx.unknown('R04x', mod_, fnode, '%s: too many paths to follow the in-place call' % q_,
+                                construct='%s: in-place call' % q_)
+                seen_ = set()
+                for cs in cases:
+                    rv = call_recv(cs.sub)
+                    if isinstance(rv, ast.Name) and rv.id in fparams and (rv.id, call_name(cs.sub)) not in seen_:
+                        seen_.add((rv.id, call_name(cs.sub)))
+                        n_m4 += 1
+                        ctx.refuted('R04x', mod_, cs.node, '%s changes its argument %s in place (%s) on the path [%s]: the caller\'s '
+                                    'list is modified, so the next encoder built from the same list (a second partial encoder '
+                                    'with other keep_latex_chars, or a plain UnicodeToLatexEncoder) also runs what this call '
+                                    'added and no longer encodes what its own configuration says'
+                                    % (q_, rv.id, short(cs.node, 40), ' & '.join(cs.cond_src())[-80:]),
+                                    construct='%s: in-place %s.%s' % (q_, rv.id, call_name(cs.sub)))
+            for st_ in iter_own(fnode):
+                tg_ = None
+                if isinstance(st_, ast.Assign):
+                    tg_ = [t_ for t_ in st_.targets if isinstance(t_, ast.Subscript)]
+                elif isinstance(st_, ast.Delete):
+                    tg_ = [t_ for t_ in st_.targets if isinstance(t_, ast.Subscript)]
+                elif isinstance(st_, ast.AugAssign) and isinstance(st_.target, ast.Name):
+                    tg_ = [ast.Subscript(value=st_.target)]
+                for t_ in tg_ or []:
+                    if not (isinstance(t_.value, ast.Name) and t_.value.id in fparams):
+                        continue
+                    nm_ = t_.value.id
+                    # the name denotes the caller's object unless it is re-bound, unconditionally, earlier in the body
+                    reb_ = any(isinstance(b_, ast.Assign) and any(isinstance(x_, ast.Name) and x_.id == nm_ for x_ in b_.targets)
+                               and b_.lineno < st_.lineno for b_ in fnode.body)
+                    if isinstance(st_, ast.AugAssign) and not isinstance(st_.op, (ast.Add, ast.BitOr)):
+                        continue
+                    if not reb_:
+                        n_m4 += 1
+                        ctx.refuted('R04x', mod_, st_, '%s changes its argument %s in place (`%s`) without first re-binding it to '
+                                    'a copy: the caller\'s object is modified and the next encoder configured from it behaves '
+                                    'differently' % (q_, nm_, short(st_, 50)), construct='%s: in-place %s' % (q_, short(st_, 40)))
+    ctx.holds('R04x', m, None, 'no function of latexencode modifies an argument object in place (%d functions with parameters)'
+              % n_f4, construct='argument mutation scan', trivial=True)
+
     # ---- R04p: text kept by the partial encoder is one whole token
     ctx.rule('R04p', 'PartialLatexToLatexEncoder: whatever is kept unencoded is measured by the token that was read (its '
                      'end position), never a fixed number of characters', 1)
